@@ -173,6 +173,13 @@ func init() {
 		out := xslices.Insert(s, num(a[2]), ints(a[3])...)
 		res["r"] = []any{"insert", nn(clone(out)), sameArray(s, out), nn(full)}
 	}
+	// Insert whose values are a sub-slice s[lo:hi] of s itself (s has spare capacity): a = [s, extra, idx, lo, hi]
+	calls["xslices.InsertAliased"] = func(a []any, res map[string]any) {
+		s, _ := withCap(ints(a[0]), ints(a[1]))
+		lo, hi := num(a[3]), num(a[4])
+		out := xslices.Insert(s, num(a[2]), s[lo:hi]...)
+		res["r"] = []any{"list", nn(clone(out))}
+	}
 	calls["xslices.Join"] = func(a []any, res map[string]any) {
 		res["r"] = []any{"list", nn(xslices.Join(intss(a[0])...))}
 	}
